@@ -14,7 +14,8 @@ import common
 from common import Suite
 
 TRUSTED = ["C15: floats, complex, bytes, dict/set literals, string ordering, sequence repetition, string methods are outside the fragment (the model answers 'oof' and the case is not compared); they are covered by the eval oracle only"]
-ASSUMPTIONS = ["identity tests between non-singleton literals are outside the claim"]
+ASSUMPTIONS = ["identity tests between non-singleton literals are outside the claim",
+               "names of side-effect-free builtins denote the builtins: literal_value sees one expression at a time, a module that rebinds len is outside lit_sound (recorded finding C02 constant-folding-through-rebound-builtin)"]
 
 NAMES = ["x", "y"]
 ENV = {"x": 3, "y": ()}
